@@ -677,7 +677,34 @@ func runHistory(c *vf.Ctx, caseNo int, dir string) (h histOut) {
 	h.Recs = recd.recs
 	// final per-node agreement
 	h.DumpsEqual = true
-	if fl != nil && cl.WaitConverged(30*time.Second) {
+	// Barrier: a marker row written through the log must be visible locally on
+	// every node before the per-node contents are compared (the FSM can lag far
+	// behind Raft's applied index, e.g. after the slow-apply fault).
+	converged := false
+	if fl != nil {
+		tok := fmt.Sprintf("marker-%d", caseNo)
+		mr := cl.PostJSON(fl, "/db/execute", []any{[]any{"INSERT INTO oplog(tok) VALUES(?)", tok}})
+		if mr.Err == nil && mr.Status == 200 {
+			deadline := time.Now().Add(60 * time.Second)
+			for time.Now().Before(deadline) {
+				all := true
+				for _, n := range cl.Live() {
+					rr := cl.Do(n, "GET", "/db/query?level=none&q="+url.QueryEscape("SELECT count(*) FROM oplog WHERE tok='"+tok+"'"), nil, nil)
+					a, err := rr.Parse()
+					if err != nil || len(a.Results) != 1 || len(a.Results[0].Values) != 1 || fmt.Sprint(a.Results[0].Values[0][0]) == "0" {
+						all = false
+						break
+					}
+				}
+				if all {
+					converged = true
+					break
+				}
+				time.Sleep(100 * time.Millisecond)
+			}
+		}
+	}
+	if converged {
 		var ref string
 		for i, n := range cl.Live() {
 			rr := cl.Do(n, "GET", "/db/query?level=none&q="+url.QueryEscape("SELECT k, v FROM kv ORDER BY k"), nil, nil)
